@@ -81,7 +81,9 @@ PROPS = {
         run_fn="run_fdcase",
         theorems=["C07_fd_word_roundtrip", "C07_close_encoding", "C07_descriptor_closed_exactly_once",
                   "C07_delivered_to_abandoned_op_refuted", "C07_delivered_to_finished_unpolled_op_refuted",
-                  "C07_close_future_never_started_refuted", "C07_all_closed_at_rest_refuted"],
+                  "C07_close_future_never_started_refuted", "C07_all_closed_at_rest_refuted",
+                  "C07_pipe_fallback_wraps_regular", "C07_pipe_fallback_only_in_poll",
+                  "C07_pipe_fallback_requested_kind_refuted"],
         rule="one splitmix64 stream per case (VERIF_SEED, index) on the simulated kernel: ring with 1, 2 or 4 submission "
              "slots, random 32-bit start counters, no direct descriptor table or one of 2, 4 or 8 slots; 6..40 events "
              "from one of four weight profiles (balanced / many drops between ring polls / futures abandoned / "
@@ -90,10 +92,18 @@ PROPS = {
              "to_direct_descriptor on a regular one, to_file_descriptor on a direct one; poll of a creator; drop of a "
              "creator in any state; kernel completion of an in-flight creator with the lowest free number of the table "
              "the submission asks for (so numbers are reused after a close; multishot with or without F_MORE); kernel "
-             "error (EMFILE, ENFILE, EACCES, ECONNRESET, ENXIO without a table); Ring::poll; drop of an AsyncFd (queue "
+             "error (EMFILE, ENFILE, EACCES, ECONNRESET, ENXIO without a table); for an in-flight pipe (regular or "
+             "direct request) in half of the kernel answers EINVAL = no IORING_OP_PIPE: the poll of the live future "
+             "then runs the real pipe2(2), whose two descriptors are read off the process descriptor table (fcntl "
+             "F_GETFD before/after that poll), written into the KPipeInval event after the fact, entered in the "
+             "kernel-side oracle table as regular descriptors of that operation and really closed by the simulated "
+             "kernel when it executes their CLOSE / sees close(2) (about 20% of the cases contain the refusal; the "
+             "distribution tags pipe-fallback* count requested kind, pipe2 ran / future gone, and how the two AsyncFds "
+             "were closed: drop with room, drop with the queue full, close()); Ring::poll; drop of an AsyncFd (queue "
              "with room or full); close(); poll / drop of a close future before its first poll, with a full queue, "
              "after submission, after completion}; every history ends with an orderly wind-down (take arrived "
-             "results, drop futures and descriptors, two ring polls) while the ring exists; non-trivial = at least "
+             "results, drop futures and descriptors, two ring polls) while the ring exists, after which the process "
+             "descriptor table is compared with the oracle's table; non-trivial = at least "
              "one descriptor issued and one closed; distinct by the Coq case term",
         assumptions=["descriptor numbers returned by the kernel are non-negative i32 values (guard fresh: fd < 2^31), "
                      "not open at that moment, never a standard stream, and direct slots lie inside the registered table",
@@ -101,15 +111,23 @@ PROPS = {
                      "alive (the borrow checker's rule; events breaking it are no-ops in the model and are not generated)",
                      "IORING_OP_CLOSE executes when the kernel consumes it and an ASYNC_CANCEL never wins against a "
                      "creator or a close (the request stays in flight; a cancelled creator would return no descriptor)",
-                     "kernel errors are final and are not EINTR / ECANCELED (restart: C09) or EINVAL (pipe falls back "
-                     "to pipe2, to_direct/to_file report Unsupported)",
+                     "kernel errors are final and are not EINTR / ECANCELED (restart: C09); EINVAL is modelled for pipe "
+                     "(event KPipeInval: PipeOp::fallback calls pipe2(2) inside the poll of the live future and wraps "
+                     "both descriptors as REGULAR whatever kind was requested — the documented deviation from 'of the "
+                     "requested kind', theorem C07_pipe_fallback_wraps_regular) and not generated for the other "
+                     "creators (a10 reports Unsupported: an error without a descriptor)",
+                     "pipe2(2) returns two distinct numbers that are not open in the process at that moment, non-negative "
+                     "i32, not standard streams (guard all_fresh at the time of the call; other numbers stand for a "
+                     "failing pipe2)",
                      "the completion queue (256 entries) never overflows; API calls are atomic with respect to "
                      "completion processing",
                      "scope: while the Ring exists (what is dropped after its Ring is H13 / C12)",
                      "known findings H12 and H19 are excluded by name (delivered_to_abandoned_op, "
                      "close_future_never_started) with witnesses"],
         trusted=["simulated kernel harness/src/simk.rs (consumes the queue in order, routes close(2) on issued numbers "
-                 "through hook A, records REGISTER_FILES_UPDATE)",
+                 "through hook A, records REGISTER_FILES_UPDATE; really closes the registered real pipe2 descriptors "
+                 "when it executes a CLOSE naming them or sees close(2) on them)",
+                 "the real kernel's pipe2(2) and fcntl(F_GETFD) (the driver's reading of the process descriptor table)",
                  "a10 verif hook A (src/verif.rs): enter, register, close",
                  "the io_uring ABI reading of CLOSE (file_index = 0: regular sqe.fd, else slot file_index-1; both set: "
                  "EINVAL), stated twice independently: kernel_close_target in coq/Model/FdTable.v and "
